@@ -1,6 +1,6 @@
 PROPERTY = "C19"
 LEVEL = "proof"
-LEAN_MODULES = ["CifModel.Props.C19", "CifModel.Props.ReviewC19", "CifModel.Props.C19Hist"]
+LEAN_MODULES = ["CifModel.Props.C19", "CifModel.Props.ReviewC19", "CifModel.Props.C19Hist", "CifModel.Props.ReviewRC19"]
 REQUIRED = ["CifModel.C19_list_is_sequence", "CifModel.C19_table_is_map", "CifModel.C19_table_invalid_key",
             "CifModel.C19_table_history", "CifModel.C19_packet_is_map", "CifModel.C19_packet_create", "CifModel.C19_wrong_kind",
             "CifModel.C19_clone_equal", "CifModel.C19_reinit_result_independent", "CifModel.C19_reinit_releases",
@@ -14,7 +14,8 @@ REQUIRED = ["CifModel.C19_list_is_sequence", "CifModel.C19_table_is_map", "CifMo
             "CifModel.C16_packet_create_heap_safe", "CifModel.C16_get_keys_heap_safe", "CifModel.C19_clone_onto_heap", "CifModel.C19_reinit_heap",
             # operation histories (group gM, Props/C19Hist.lean)
             "CifModel.C19_history_heap", "CifModel.C19_history_owned", "CifModel.C19_history_release", "CifModel.C19_history_trace",
-            "CifModel.C19_step_heap", "CifModel.C19_clone_onto_member_heap", "CifModel.C19_list_history",
+            "CifModel.C19_step_heap", "CifModel.C19_clone_onto_member_heap", "CifModel.C19_history_pure_is_spec", "CifModel.C19_pure_is_spec_any",
+            "CifModel.C19_history_get_owned",
             "CifModel.C19_nested_update_exact", "CifModel.C19_nested_putP_exact", "CifModel.C19_refs_distinct", "CifModel.C19_history_get"]
 GEN = ["ErrCodes", "ValueCols"]
 FAMILIES = ["val", "valheap"]
@@ -48,15 +49,30 @@ PARTIAL = [
     "ichr, lget, lset, lins, lrem, mget, mset, mrem, pnew, pfree over 8 value and 4 packet slots, members by paths of any depth — the "
     "state runH reaches from the empty heap is well-formed and represents the state runP reaches: every occupied slot an object "
     "representing the pure value, footprints of different slots disjoint, every live block in exactly one footprint), "
-    "C19_history_release (releasing all slots then frees every block, each once), C19_list_history, C19_nested_update_exact "
-    "(pure level). The history theorems carry no fuel hypothesis: the interpreter computes the fuel of the pointer-following heap "
+    "C19_history_release (releasing all slots then frees every block, each once), C19_nested_update_exact (pure level), and "
+    "C19_history_pure_is_spec: the TIED pure interpreter stepP? / runP agrees with the independent specification Spec/ValueSpec in "
+    "every state of every history, for the object at any path — a list is a sequence (seqInsert / seqSet / seqRemove / seqGet, "
+    "CIF_INVALID_INDEX exactly where undefined), a table or packet is an abstract map keyed by the normalised key (AMap.set / erase / "
+    "lookup), wrong-kind calls change nothing — so C19_history_heap composes to 'the heap represents what the specification says'. "
+    "Limits of that theorem: the erase clause assumes the table operated on has no key twice (nodupKeys; every table the API builds "
+    "has none — C19_table_is_map — but `bld` accepts any V, also one with a repeated key below the top level, and that invariant is "
+    "not carried through histories); for a set on an EXISTING key the value part is stated as the member assignment setValueP after "
+    "the AMap.set that records the spelling (its effect on the member and on nothing else: C19_nested_putP_exact); result codes are "
+    "not part of the history language (refused / unresolved / duplicate all read 'nothing happens'). The history theorems carry no fuel hypothesis: the interpreter computes the fuel of the pointer-following heap "
     "functions from the heap (fuelOf h = 3*h.next + 9), which is proved sufficient (Rep_nodup, Rep_need, RepS.fitsAt: a footprint lists "
     "each block once below the bump pointer). The pointer tests of the C (`src == dst`) are made on addresses by the heap interpretation and on references by the "
     "pure one; C19_refs_distinct proves the two agree (different references designate different blocks). What the history theorems do "
     "NOT say: (iii) cif_packet_create with two "
     "names for one item leaves the model state as it was (the blocks it allocated and released again are not recorded; "
-    "C16_packet_create_heap_safe proves they are all released); (iv) allocation failures (C17) and "
-    "convert_to_standalone (unreachable) are outside the op language",
+    "C16_packet_create_heap_safe proves they are all released); (iv) the numeric re-initialisers are OUTSIDE the op "
+    "language: HOp has init (kind NUMB = the number 0), ichr (init_char / copy_char) only — cif_value_init_numb with a general number, "
+    "cif_value_autoinit_numb and cif_value_parse_numb on an existing object or member are not operations of the history theorems nor "
+    "of families val / valheap; for them 'releases the previous content' is gG's single-operation C19_reinit_heap on free-standing "
+    "objects (heap transformation = Hist.buildOntoAt with the number as value); (v) cif_packet_create with an INVALID name (the "
+    "normaliser fails after earlier names were allocated) has no heap model: pnew with such a name is 'nothing happens' on both "
+    "sides; (vi) pointer STABILITY across operations (an address handed out by get stays the address of that member while other "
+    "objects are operated on) is not stated: C19_step_heap relates the new footprints to the old ones only inside its proof; (vii) "
+    "allocation failures (C17) and convert_to_standalone (unreachable) are outside the op language",
     "failure paths of the re-initialisers (cif_value_parse_numb / copy_char on invalid input leave the object as it was) are "
     "modelled at pure level only (Model/Numb, C10); reinitH / Hist.buildOntoAt model the successful path",
     "the heap model is tied to value.c / map.c / packet.c by family valheap, whose driver EXECUTES Hist.traceH (= the runH states of "
@@ -84,13 +100,15 @@ LEVEL_TEXT = ("Proof about an executable Lean model at two levels. Pure level: l
               "any aliasing): by induction over the op list, every state reachable from the empty heap is well-formed and represents the "
               "pure state (each live block owned by exactly one slot), and releasing all slots frees every block once "
               "(C19_history_heap, C19_history_release; one-step form from any represented state C19_step_heap); pure level: "
-              "C19_list_history, C19_nested_update_exact. Tied to the C "
+              "C19_history_pure_is_spec (the tied pure interpreter agrees with Spec/ValueSpec: lists as sequences, tables / packets as "
+              "maps, at any path, in any history), C19_nested_update_exact. Tied to the C "
               "by family val: random operation sequences on the real library under ASan/UBSan, compared step by step with the pure "
               "model and, independently, with a Python transcription of the documented contracts; and by family valheap: the same "
               "sequences with the allocation tracker on, the per-operation change in live heap blocks, the ownership of every live block and the contents of "
               "all string blocks compared with the heap model run on the sequence (the model's clone is cloneH, reading the source).")
 LEVEL_NOTE = ("Pure level proved in full. Heap level proved for every value / list / map / packet operation except the unreachable "
-              "convert_to_standalone and allocation failures (C17), for single operations and for whole histories (any op list, from "
+              "convert_to_standalone and allocation failures (C17), for single operations and — for the operations of the history "
+              "language Hist.HOp, which has no numeric re-initialiser beyond init-to-0 (see PARTIAL) — for whole histories (any op list, from "
               "the empty heap; the interpreter the theorem is about is the one family valheap executes). The two defects this property found (F35 source inside the clone "
               "target / self-clone, F36 duplicate names in cif_packet_create) are repaired in the sources (f1b092b, c571e89); the "
               "model follows the repaired code, the pinned behaviour is kept as counterexample theorems (C19_cex_*_pinned). No open finding.")
